@@ -11,8 +11,8 @@ from props import base
 from props.base import Context  # noqa: F401
 
 PID = 'C09'
-TIE_MODULES = ['DiffxVerif.Tie.Sections', 'DiffxVerif.Tie.Spec']
-NEEDS = ['sections', 'options', 'spec_tree']
+TIE_MODULES = ['DiffxVerif.Tie.Sections', 'DiffxVerif.Tie.Spec', 'DiffxVerif.Tie.RegexWriter']
+NEEDS = ['sections', 'options', 'spec_tree', 're_writer']
 ASSUMPTIONS = [
     'expected acceptance comes from harness/specdoc.py (hierarchy written from docs/spec)',
     'writer state is observed through (_stack, _prev_section) and the stream contents after every call',
